@@ -5,7 +5,11 @@
  * stream must hold exactly the N events of its own thread (checked by the
  * caller from the files).
  *
- * usage: churndrv <rounds> <K> <N>      (OVNI_TRACEDIR must be set)
+ * With a fourth argument "overlap" the single thread of a round is not freed
+ * before the group starts: it waits at the barrier and calls
+ * ovni_thread_free() at the moment the K others call ovni_thread_init().
+ *
+ * usage: churndrv <rounds> <K> <N> [overlap]     (OVNI_TRACEDIR must be set)
  * prints: CHURN-DONE rounds=<r> threads=<t>
  */
 #include <pthread.h>
@@ -16,9 +20,9 @@
 #include "ovni.h"
 
 static pthread_barrier_t bar;
-static int nev;
+static int nev, overlap;
 
-struct arg { int tid; int use_barrier; };
+struct arg { int tid; int use_barrier; int free_at_barrier; };
 
 static void *
 life(void *p)
@@ -37,6 +41,8 @@ life(void *p)
 		ovni_ev_emit(&ev);
 	}
 	ovni_flush();
+	if (a->free_at_barrier)
+		pthread_barrier_wait(&bar);
 	ovni_thread_free();
 	return NULL;
 }
@@ -44,8 +50,9 @@ life(void *p)
 int
 main(int argc, char *argv[])
 {
-	if (argc != 4)
+	if (argc != 4 && argc != 5)
 		return 98;
+	overlap = argc == 5;
 	int rounds = atoi(argv[1]), k = atoi(argv[2]);
 	nev = atoi(argv[3]);
 	if (k < 1 || k > 64)
@@ -55,14 +62,17 @@ main(int argc, char *argv[])
 	for (int r = 0; r < rounds; r++) {
 		pthread_t th[65];
 		struct arg args[65];
-		args[0].tid = tid++; args[0].use_barrier = 0;
+		pthread_barrier_init(&bar, NULL, (unsigned) (k + overlap));
+		args[0].tid = tid++; args[0].use_barrier = 0; args[0].free_at_barrier = overlap;
 		pthread_create(&th[0], NULL, life, &args[0]);
-		pthread_join(th[0], NULL);
-		pthread_barrier_init(&bar, NULL, (unsigned) k);
+		if (!overlap)
+			pthread_join(th[0], NULL);
 		for (int i = 1; i <= k; i++) {
-			args[i].tid = tid++; args[i].use_barrier = 1;
+			args[i].tid = tid++; args[i].use_barrier = 1; args[i].free_at_barrier = 0;
 			pthread_create(&th[i], NULL, life, &args[i]);
 		}
+		if (overlap)
+			pthread_join(th[0], NULL);
 		for (int i = 1; i <= k; i++)
 			pthread_join(th[i], NULL);
 		pthread_barrier_destroy(&bar);
